@@ -271,7 +271,7 @@ func cmdLookup(fs *flag.FlagSet) {
 	out := fs.String("out", "lookup", "output prefix")
 	fs.Int64("seed", 1, "seed")
 	fs.Parse(os.Args[2:])
-	startWatchdog(30 * time.Second)
+	startWatchdog(60 * time.Second)
 	wt := newWatch()
 	n := 0
 	if *cases != "" {
